@@ -277,6 +277,30 @@ def check(case) -> Outcome:
             return fail("identify_outcomes-raised-on-simplified-admg", exc=repr(e)[:300])
         if (est is not None) != want:
             return fail("identifiability-verdict-changed", X=xs, Y=ys, projection_identifiable=want, simplified_identifiable=est is not None)
+    # the consumer named in the property's anchors (taheri_design._get_result): every latent configuration enumerated
+    # over this DAG -- given WITH its existing latent tags -- must come back with the projection onto its own observed set
+    if len(nodes) <= 6 and len(obs_sorted) >= 2 and case["pick"] % 2 == 0:
+        from y0.algorithm.taheri_design import taheri_design_dag
+
+        perm = rng.shuffle(obs_sorted)
+        cause, effect = perm[0], perm[1]
+        try:
+            results = taheri_design_dag(fresh(), V(cause), V(effect), tag=tag)
+        except Exception as e:
+            return fail("taheri_design_dag-raised", exc=repr(e)[:300], cause=cause, effect=effect)
+        labels.add("design-results-checked")
+        for r in results:
+            lat = {n.name for n in r.latents}
+            seen_obs = {n.name for n in r.observed} | {cause, effect}
+            if lat & seen_obs or (lat | seen_obs) != set(nodes):
+                return fail("design-result-latent/observed-lists-do-not-partition-the-nodes", latents=sorted(lat), observed=sorted(seen_obs))
+            o2, d2_, b2 = projection(nodes, edges, lat)
+            got = _graph_sets(r.admg)
+            if got != (set(o2), d2_, b2):
+                return fail("design-result-admg-differs-from-latent-projection", cause=cause, effect=effect, latents=sorted(lat), got=[sorted(got[0]), sorted(got[1]), sorted(map(sorted, got[2]))], want=[sorted(o2), sorted(d2_), sorted(map(sorted, b2))])
+            want_id = identifiable(o2, [list(e) for e in d2_], [sorted(e) for e in b2], [cause], [effect])
+            if bool(r.identifiable) != want_id or (r.estimand is not None) != want_id:
+                return fail("design-result-verdict-differs-from-projection", cause=cause, effect=effect, latents=sorted(lat), reported=bool(r.identifiable), projection_identifiable=want_id)
     out.nontrivial = bool(r1.widows or r1.unidirectional_latents or r1.redundant or any(lat_parents[l] for l in latents))
     out.labels = sorted(labels)
     return out
